@@ -234,6 +234,36 @@ func ruleEnqueueBeforeSpawn(c *Check, p *Program, rule string) {
 						}
 					}
 				}
+				// and conversely: once a channel is on the queue a worker for it is started before the
+				// submitting goroutine does anything else (otherwise the collector waits on it forever)
+				if ok2 {
+					for _, j := range in.Block().Instrs {
+						s, isS := j.(*ssa.Send)
+						if !isS {
+							continue
+						}
+						if cht, isC := s.Chan.Type().Underlying().(*types.Chan); isC {
+							if _, inner := cht.Elem().Underlying().(*types.Chan); !inner {
+								continue
+							}
+						}
+						gi := in
+						orphan, _ := reachAvoid(fn, j, func(x ssa.Instruction) bool {
+							if isReturn(x) {
+								return true
+							}
+							if s2, ok := x.(*ssa.Send); ok && s2 != s {
+								if cht, isC := s2.Chan.Type().Underlying().(*types.Chan); isC {
+									if _, inner := cht.Elem().Underlying().(*types.Chan); inner {
+										return true
+									}
+								}
+							}
+							return false
+						}, func(x ssa.Instruction) bool { return x == gi })
+						c.Cond(!orphan, rule, shortFn(fn)+"#enqueued-channel-gets-worker", p.InstrPos(j), "a per-block channel that has been put on the ordered queue always gets its worker goroutine (no exit or further enqueue in between): otherwise the ordering side blocks on a channel nobody answers", "the `go` statement follows the enqueue on every path", "after the enqueue a return or another enqueue is reachable without the worker having been started")
+					}
+				}
 				c.Cond(ok2, rule, key, p.InstrPos(in), "the per-block result channel is put on the ordered queue by the submitting goroutine before the worker goroutine is started (output order = submission order)", "queue <- c precedes `go` in the same block", "the worker is started without its result channel having been enqueued first by the submitting goroutine: blocks could be written / delivered out of order")
 			})
 		}
